@@ -124,6 +124,12 @@ def blocks (key nonce : List Nat) (nb : Nat) : List Nat := (List.range nb).flatM
 block truncated when `len` is not a multiple of 64 -/
 def stream (key nonce : List Nat) (len : Nat) : List Nat := (blocks key nonce ((len + 63) / 64)).take len
 
+/-- random access: bytes `[off, off + n)` of the stream, computed from the blocks `off / 64 …` they fall into without
+materialising the prefix (used on requests of several GiB, of which the harness emits sampled windows).
+`Nfl.C13.stream_window` proves that this IS `((stream key nonce len).drop off).take n` whenever `off + n ≤ len`. -/
+def window (key nonce : List Nat) (off n : Nat) : List Nat :=
+  (((List.range ((off % 64 + n + 63) / 64)).flatMap fun i => block key nonce (off / 64 + i)).drop (off % 64)).take n
+
 /-! ## The examples of the specification -/
 
 -- §3
